@@ -90,7 +90,7 @@ impl NetServer {
         std::fs::write(&conf_path, config_yaml).map_err(|e| e.to_string())?;
         let errf = std::fs::File::create(&stderr_path).map_err(|e| e.to_string())?;
         let outf = errf.try_clone().map_err(|e| e.to_string())?;
-        let path = format!("{}/{}", crate::wire_dns::REPO_BIN_DIR, bin);
+        let path = format!("{}/{}", crate::wire_dns::repo_bin_dir(), bin);
         let child = std::process::Command::new("ip")
             .args(["netns", "exec", SRV_NS, &path, &conf_path])
             .env("RUST_LOG", log_level)
